@@ -625,6 +625,30 @@ V({
     "trusted": ["chalk-recursive SearchGraph / Stack / Cache (abstract)", "Rust unwinding semantics"],
 })
 
+# -------------------------------------------------------------------------- V28
+V({
+    "id": "V28",
+    "title": "ty_size_visitor: TySizeVisitor::{new, visit_ty, interner} (chalk-solve/src/solve/truncate.rs)",
+    "template": "v28_ty_size.rs",
+    "assumptions": [
+        "V28: nodes(t) (type constructors of t, bound unknowns resolved) is uninterpreted; its two defining equations are the assumed contract of InferenceTable::normalize_ty_shallow (bound unknown: nodes of its value; otherwise 1 + nodes of the components)",
+        "V28: the generic visit driver (Ty::visit_with / super_visit_with, which call back into visit_ty for every component) is havoc under the induction hypothesis: visit_with(t) behaves like visit_ty(t), super_visit_with(t) like visit_ty on each component in turn at the visitor's current (non-zero) depth",
+        "V28: counters do not overflow (precondition); std::cmp::max per its documentation; needs_truncation itself (generic over TypeVisitable) is not extracted",
+    ],
+    "trusted": ["chalk-ir visit driver", "InferenceTable::normalize_ty_shallow"],
+})
+
+# -------------------------------------------------------------------------- V27
+V({
+    "id": "V27",
+    "title": "rec_stack_unbounded: Stack::{new, is_empty, clear, push} (chalk-recursive/src/fixed_point/stack.rs) on the real struct",
+    "template": "v27_rec_stack.rs",
+    "assumptions": [
+        "V27: no external_body, no assumed contract: Vec is vstd's model.  Precondition of push: below the limit (at the limit the function aborts - the abort path is K11's should_panic harness); pop is left to K11 (assert_eq! expands to an unstable library item under this Verus)",
+    ],
+    "trusted": [],
+})
+
 # ===========================================================================
 GLOBAL_ASSUMPTIONS = [
     "soundness of rustc+Kani's model of core/alloc and of CBMC; soundness of Verus and Z3",
